@@ -156,7 +156,10 @@ func (e *ResourceUpdateExecutorImpl) LeveledUpdateBatch(updaters [][]ResourceUpd
 	}
 
 	for i := len(updaters) - 1; i >= 0; i-- {
-		for _, updater := range updaters[i] {
+		// this pass goes bottom-up, so a level is walked in reverse order as well: callers put a cgroup that
+		// actually sits above the others of its level first (e.g. kubepods before burstable and besteffort)
+		for j := len(updaters[i]) - 1; j >= 0; j-- {
+			updater := updaters[i][j]
 			if !e.needUpdate(updater) {
 				continue
 			}
